@@ -48,12 +48,13 @@ def setup():
 
 OPS = ['def_m1', 'def_m2', 'def_m_none', 'def_m_empty', 'def_mg', 'def_special4', 'def_ab3', 'use_p', 'use_q_list', 'use_r_ab', 'use_p_uneval',
        'file2_redefine', 'include_def_use', 'finalize', 'def_and_use_one_text', 'use_then_def_one_text',
-       'def_gin_macro5']
+       'def_gin_macro5', 'use_p_short_ref', 'use_r_uneval', 'def_m11_skip_unknown', 'def_ab_skip_list']
 TEXT = {
     'def_m1': 'm = 1', 'def_m2': 'm = 2', 'def_m_none': 'm = None', 'def_m_empty': "m = ''", 'def_mg': 'm = @c05.g()', 'def_special4': 'm/macro.value = 4',
     'def_gin_macro5': 'm/gin.macro.value = 5',
     'def_ab3': 'a/b = 3', 'use_p': 'c05.c.p = %m', 'use_q_list': "c05.c.q = [%m, 'x', %m]", 'use_r_ab': 'c05.c.r = %a/b',
-    'use_p_uneval': 'c05.c.p = @m/macro',
+    'use_p_uneval': 'c05.c.p = @m/macro', 'use_p_short_ref': 'c05.c.p = @m/macro()',
+    'use_r_uneval': 'c05.c.r = @m/gin.macro', 'def_m11_skip_unknown': 'm = 11', 'def_ab_skip_list': 'a/b = 12',
     'def_and_use_one_text': 'm = 7\nc05.c.p = %m\nm = 8',
     'use_then_def_one_text': 'c05.c.r = %a/b\na/b = 9',
 }
@@ -62,7 +63,7 @@ G = ('G',)
 
 def bound(tier):
   return 'macro histories depth<=%d over %d operations; constants: ordered subsets of <=%d of %d pool names' % (
-      (5, len(OPS), 4, len(POOL)) if tier == 'quick' else (6, len(OPS), 5, len(POOL)))
+      (4, len(OPS), 4, len(POOL)) if tier == 'quick' else (6, len(OPS), 5, len(POOL)))
 
 
 class World:
@@ -97,6 +98,14 @@ class World:
       self.params['r'] = ('M', 'a/b')
     elif op == 'use_p_uneval':
       self.params['p'] = ('U', 'm')
+    elif op == 'use_p_short_ref':
+      self.params['p'] = ('M', 'm')
+    elif op == 'use_r_uneval':
+      self.params['r'] = ('U', 'm')
+    elif op == 'def_m11_skip_unknown':
+      self.macros['m'] = 11
+    elif op == 'def_ab_skip_list':
+      self.macros['a/b'] = 12
     elif op == 'file2_redefine':
       self.macros['m'] = 20
     elif op == 'include_def_use':
@@ -138,6 +147,10 @@ class World:
         gin.parse_config_file('c05_f2.gin')
       elif op == 'include_def_use':
         gin.parse_config("include 'c05_inc.gin'")
+      elif op == 'def_m11_skip_unknown':
+        gin.parse_config(TEXT[op], skip_unknown=True)          # a macro definition never targets an unknown name
+      elif op == 'def_ab_skip_list':
+        gin.parse_config(TEXT[op], skip_unknown=['b', 'a/b', 'm'])
       else:
         gin.parse_config(TEXT[op])
       out = 'ok'
@@ -400,7 +413,7 @@ def run(ctx):
   res = core.Result()
   res.extra['alphabet'] = OPS
   mod = __import__('checks.c05', fromlist=['x'])
-  bfs.run_bfs(ctx, mod, 5 if ctx.quick else 6, res, max_states=200000 if ctx.quick else 2000000)
+  bfs.run_bfs(ctx, mod, 4 if ctx.quick else 6, res, max_states=200000 if ctx.quick else 2000000)
   n = ctx.jobs * 4
   for r in ctx.pmap(_const_shard, [(i, n, ctx.tier) for i in range(n)]):
     res.merge(r)
